@@ -303,3 +303,72 @@ def kind(case, model):
     if p:
         tag = "".join(sorted({r.kind[0] for r in p[0]}))
     return "%s:%s:%s" % (c.flags.get("kind", "?"), c.mode, tag)
+
+
+# ---------------------------------------------------------------------------------------------------------
+# "answers already cached from earlier questions" across the prune the server runs after every request
+# ---------------------------------------------------------------------------------------------------------
+def _cached_answer_cases(rng, n):
+    """a multi-record answer is cached (insert_all, as resolve_with_nameserver_response does), further answers for
+    other names follow, the over-size cache is pruned, the first question is asked again"""
+    cases = []
+    names = ["61.-", "62.-", "63.-", "64.-", "65.-"]
+    for _ in range(n):
+        desired = rng.choice([1, 2, 3, 4, 5, 6])
+        ops = []
+        sets = {}
+        for nm in rng.sample(names, rng.randint(2, 5)):
+            k = rng.choice([1, 2, 3, 3, 4, 6])
+            ops.append("T~%d" % rng.choice([1, 1, 1000000000]))
+            ops.append("A~" + ";".join("%s:1:1:%d:a%d" % (nm, rng.choice([300, 300, 3600]), j + 1) for j in range(k)))
+            sets[nm] = k
+            if rng.random() < 0.3:
+                ops += ["T~1", "G~%s~1" % rng.choice(list(sets))]
+        ops += ["T~1", "P", "T~1"]
+        asked = list(sets)
+        rng.shuffle(asked)
+        ops += ["G~%s~1" % nm for nm in asked]
+        cases.append(("cache H %d %s" % (desired, "|".join(ops)), [sets[nm] for nm in asked]))
+    return cases
+
+
+def extra(ctx):
+    from . import core
+    n = 300 if ctx["tier"] == "quick" else 6000
+    for what, f in (("model", core.build_model_driver), ("impl", core.build_impl_driver)):
+        ok, out = f("cache")
+        if not ok:
+            return ([core.Failure("cache-driver-build", "%s driver of the cache stream failed to build: %s"
+                                  % (what, core.trunc(out[-600:], 600)), found_input=False)], {})
+    cs = _cached_answer_cases(ctx["rng"], n)
+    cases = [c for c, _ in cs]
+    mo = core.run_sharded(core.model_driver_path("cache"), cases, ctx["run_dir"], "c07cache-model")
+    io = core.run_sharded(core.impl_driver_path("cache"), cases, ctx["run_dir"], "c07cache-impl")
+    fails = []
+    dis = 0
+    partial_possible = 0
+    for (c, ks), m, i in zip(cs, mo, io):
+        segs = i.split("|")
+        gets = [s.split("!")[0] for s in segs if s.startswith("L")][-len(ks):]
+        bad = None
+        if len(gets) != len(ks):
+            bad = "the cache driver did not complete the history: %s" % core.trunc(i, 200)
+        else:
+            for g, k in zip(gets, ks):
+                cnt = 0 if g == "L_" else len(g[1:].split(";"))
+                if cnt not in (0, k):
+                    bad = ("a cached answer of %d records is served with %d of them after a prune: an earlier question's "
+                           "answer must stay whole or go whole" % (k, cnt))
+                    break
+            if any(k > 1 for k in ks):
+                partial_possible += 1
+        if bad:
+            fails.append(core.Failure("cached-answer-cut", bad, c, i, m))
+        elif m != i:
+            dis += 1
+            if dis <= 3:
+                fails.append(core.Failure("cached-answer-correspondence",
+                                          "cache model and implementation disagree on a cached-answer history", c, i, m,
+                                          found_input=False))
+    return fails, {"cached_answer_cases": len(cases), "cached_answer_disagreements": dis, "evaluations": len(cases),
+                   "distinct_nontrivial": partial_possible}
